@@ -162,15 +162,28 @@ vh::Outcome run_def(const vh::Case& c, Prop prop) {
         }
         vrt::join_all();
         vrt::disable_faults();
-        // quiescence: one lock_shared with no handle held applies everything that was accepted
+        // quiescence: one shared acquisition (any form) or one modify call with no handle held applies everything that was accepted
         {
-            auto h = d.lock_shared();
-            if (!h) vrt::fail("null-handle", "lock_shared returned a null handle");
+            size_t total_ops = 0; for (auto& f : c.fibers) total_ops += f.size();
+            int form = (int)(total_ops % 5);
+            const char* fname = "lock_shared";
+            auto h = [&] {
+                if (form == 1) { fname = "try_lock_shared"; return d.try_lock_shared(); }
+                if constexpr (MC<M>::timed) {
+                    if (form == 2) { fname = "try_lock_shared_for"; return d.try_lock_shared_for(std::chrono::milliseconds(2)); }
+                    if (form == 3) { fname = "try_lock_shared_until"; return d.try_lock_shared_until(std::chrono::steady_clock::now() + std::chrono::milliseconds(50)); }
+                }
+                if (form == 4) { fname = "modify_detach + lock_shared"; bool ran = false; d.modify_detach([&](Tracked&) { ran = true; }); if (!ran) vrt::fail("stranded", "a modify_detach call made while no handle is held did not run its function");
+                                 for (auto& s : st.subs) if (s.execs != 1 && !(s.threw_out || s.fault_threw)) vrt::fail("stranded", "a modify call made while no handle was held did not first apply the modifications accepted earlier"); }
+                return d.lock_shared();
+            }();
+            out.labels.push_back(std::string("drained-by=") + fname);
+            if (!h) vrt::fail("null-handle", std::string(fname) + " returned a null handle although nobody holds the lock");
             uint64_t all = 0;
             for (auto& s : st.subs) {
                 if (s.execs != 1) {
                     if (s.threw_out || s.fault_threw) continue;
-                    vrt::fail("stranded", "a submitted modification had not been executed after quiescence plus one lock_shared");
+                    vrt::fail("stranded", std::string("a submitted modification had not been executed after quiescence plus one ") + fname);
                 }
                 if (!s.fault_threw) all |= s.bit;
             }
